@@ -16,9 +16,14 @@ import (
 // is passed as values[i] (a pointer for one target, a slice for two).
 // Delete: Args[0] are the named targets. Replace() and Clear have no Args.
 type Op struct {
-	Code     string  `json:"op"`
-	Unscoped bool    `json:"unscoped,omitempty"`
-	Args     [][]int `json:"args,omitempty"`
+	Code     string `json:"op"`
+	Unscoped bool   `json:"unscoped,omitempty"`
+	// Derive: the handle h = Model(..).Association(..) is kept, the view
+	// u := h.Unscoped() is derived from it BEFORE the one executed call; the
+	// call then runs on h (scoped call) or on u (Unscoped call). Deriving a view
+	// must not change what the handle it was derived from does.
+	Derive bool    `json:"derive_unscoped_view_first,omitempty"`
+	Args   [][]int `json:"args,omitempty"`
 }
 
 func symName(s int) string {
@@ -30,7 +35,12 @@ func symName(s int) string {
 
 func (o Op) String() string {
 	var sb strings.Builder
-	if o.Unscoped {
+	switch {
+	case o.Derive && o.Unscoped:
+		sb.WriteString("{u:=h.Unscoped()} u.")
+	case o.Derive:
+		sb.WriteString("{_=h.Unscoped()} h.")
+	case o.Unscoped:
 		sb.WriteString("Unscoped().")
 	}
 	sb.WriteString(o.Code + "(")
@@ -148,6 +158,9 @@ func alphabet(k Kind, slice bool) []Op {
 		add("Replace", al, true)
 	}
 	add("Replace", nil, true)
+	// calls with an empty target list: Append() and Delete() change nothing
+	add("Append", nil, true)
+	add("Delete", nil, true)
 	for _, s := range dsyms {
 		add("Delete", [][]int{{s}}, true)
 	}
@@ -155,6 +168,27 @@ func alphabet(k Kind, slice bool) []Op {
 		add("Delete", [][]int{p}, true)
 	}
 	add("Clear", nil, true)
+	// handle-derivation variants: every call that reads the Unscoped flag and
+	// takes at most one value per parent is also made on a kept handle from
+	// which an Unscoped view was derived first (scoped call on the handle
+	// itself, Unscoped call on the derived view)
+	for _, o := range ops {
+		small := true
+		for _, a := range o.Args {
+			if len(a) > 1 {
+				small = false
+			}
+		}
+		if slice && len(o.Args) > 1 {
+			small = false
+		}
+		if !small || (o.Code == "Append" && len(o.Args) > 0 && !k.single()) {
+			continue
+		}
+		d := o
+		d.Derive = true
+		ops = append(ops, d)
+	}
 	add("Count", nil, false)
 	add("Find", nil, false)
 	return ops
@@ -284,6 +318,8 @@ func (m *Model) step(k Kind, ps []uint, op Op, res [][]uint) (ambiguous string) 
 		}
 	}
 	switch {
+	case (op.Code == "Append" || op.Code == "Delete") && len(op.Args) == 0:
+		// no targets named: nothing changes
 	case op.Code == "Clear", op.Code == "Replace" && len(op.Args) == 0:
 		removeAll()
 	case op.Code == "Append" || op.Code == "Replace":
@@ -574,8 +610,11 @@ func tagsFor(k Kind, slice bool, ps []uint, m *Model, op Op) []string {
 		mode = "slice"
 	}
 	name := op.Code
-	if op.Code == "Replace" && len(op.Args) == 0 {
-		name = "Replace0"
+	if len(op.Args) == 0 && (op.Code == "Replace" || op.Code == "Append" || op.Code == "Delete") {
+		name = op.Code + "0"
+	}
+	if op.Derive {
+		name = "Derived." + name
 	}
 	if op.Unscoped {
 		name = "Unscoped." + name
